@@ -72,7 +72,7 @@ func PromiseSeq(w *vt.W, rng *rand.Rand, n int, exhaustive bool) {
 	}
 	flags := func(f int) (bool, bool, bool) { return f&1 != 0, f&2 != 0, f&4 != 0 }
 	// operations: kind 0 F, 1 X, 2 R, 3 B, 4 W; argument 0 is nil
-	alphabet := [][2]int{{0, 1}, {0, 2}, {1, 0}, {1, 3}, {2, 0}, {2, 4}, {3, 0}, {4, 0}}
+	alphabet := [][2]int{{0, 1}, {0, 2}, {0, 0}, {1, 0}, {1, 3}, {2, 0}, {2, 4}, {3, 0}, {4, 0}}
 	if exhaustive {
 		// every sequence of up to three calls, and every sequence of Fulfill/Fail/Wait of up to four, for every flag set
 		var rec func(f int, seq [][2]int, max int, alpha [][2]int)
@@ -89,10 +89,11 @@ func PromiseSeq(w *vt.W, rng *rand.Rand, n int, exhaustive bool) {
 				rec(f, append(append([][2]int{}, seq...), a), max, alpha)
 			}
 		}
-		fxw := [][2]int{{0, 1}, {0, 2}, {1, 0}, {4, 0}}
+		fxw := [][2]int{{0, 1}, {0, 2}, {0, 0}, {1, 0}, {4, 0}}
 		for f := 0; f < 8; f++ {
 			rec(f, nil, 2, alphabet)
 			rec(f, [][2]int{{0, 1}}, 4, fxw)
+			rec(f, [][2]int{{0, 0}}, 4, fxw) // a promise fulfilled with nil is set all the same
 			rec(f, [][2]int{{1, 0}}, 4, fxw)
 		}
 	}
